@@ -13,11 +13,15 @@ META = {
     "design_ref": "§5 C11, C12",
     "technique": "Coq proof (deep embedding of the combinators, structural induction over expression trees and future states, "
                  "refinement to the reference composition `denote`/`sem`/`fsem`) + extracted-model vs real-combinator differential run",
-    "level_text": "C11_value / C11_order hold for ALL service expression trees, ALL leaf behaviours (arbitrary functions), ALL requests, "
-                  "start wakers and sufficient fuel; C11_factory_* for ALL factory expression trees, configs and leaf factory behaviours. "
+    "level_text": "C11_value (result = denote, after exactly delay+1 polls) and C11_order (projection of the log onto leaf calls, leaf "
+                  "completions and closure applications = sequential reference log sem) hold for ALL service expression trees, ALL leaf "
+                  "behaviours (arbitrary functions Z -> nat * res), ALL requests, start wakers and any sufficient fuel; C11_factory_value "
+                  "(result = fsem: composed service expression or first init error in (round, position) order; create/wait-ready/configure; "
+                  "factory-then-transform) and C11_factory_once (every leaf factory invoked exactly once with the routed config) for ALL "
+                  "factory trees, configs and leaf-factory behaviours; C11_ref_* spell the reference out per combinator. "
                   "The model is tied to /repo/actix-service by running the same trees through the extracted model and through the real "
                   "combinators (boxed between levels) over scripted leaves with a hand-written executor; the complete event log with "
-                  "waker ids is compared.",
+                  "waker ids is compared, and a sample is re-evaluated inside Coq (vm_compute) against the extracted run.",
     "level_note": "Trusted: Coq kernel, extraction, OCaml driver, Rust harness (scripted leaves, reified closures, S-expression "
                   "interpreter). `then`/`pipeline` are crate-private and outside the model.",
     "rule": "stream svc11: random service trees (depth <= 3 combinators + wrappers, 1..3 leaves with distinct ids, readiness scripts "
